@@ -50,6 +50,8 @@ structure MSt where
   hs : Nat → St
   /-- `pending_monitor_events` of the downstream monitor (only `HTLCEvent`s) -/
   events : List HtlcEv := []
+  /-- in-flight updates of the upstream channel that belong to none of the tracked HTLCs -/
+  extra : Nat := 0
 
 inductive MOp where
   | setSync (b : Bool)
@@ -93,7 +95,7 @@ def priOps (m : MSt) (op : MOp) (i : Nat) : List Op :=
   | .completeDownCs => [.complete .downCs]
   | .completeDownRaa => [.complete .downRaa]
   | .handUpExtra => [.handUpOther]
-  | .completeUpExtra => [.completeUpOther]
+  | .completeUpExtra => if m.extra != 0 then [.completeUpOther] else []
   | .crash lost => [.crash lost]
   | .restart sy => [.restart sy]
   | .chainSee _ => []
@@ -122,7 +124,14 @@ def mstep (m : MSt) (op : MOp) : MSt :=
     | .chainSee claims => resolveBlock m.events claims
     | .drainEvents => []
     | _ => m.events
-  { n := m.n, hs := hs3, events := ev }
+  let alive := (m.hs 0).alive
+  let ex := match op with
+    | .handUpExtra => if alive && !(m.hs 0).sync then m.extra + 1 else m.extra
+    | .completeUpExtra => if alive then m.extra - 1 else m.extra
+    | .crash lost => if alive && !lost then 0 else m.extra
+    | .restart sy => if !alive && sy then 0 else m.extra
+    | _ => m.extra
+  { n := m.n, hs := hs3, events := ev, extra := ex }
 
 def minit (n : Nat) : MSt := { n := n, hs := fun _ => Forward.init }
 
@@ -139,7 +148,8 @@ def opsFor (m : MSt) (op : MOp) (i : Nat) : List Op :=
 def coherent (m : MSt) : Bool :=
   (List.range m.n).all fun i =>
     (m.hs i).alive == (m.hs 0).alive && (m.hs i).sync == (m.hs 0).sync &&
-    (m.hs i).downOther == countOthers m.n i (fun k => (m.hs k).blocker)
+    (m.hs i).downOther == countOthers m.n i (fun k => (m.hs k).blocker) &&
+    (m.hs i).upOther == m.extra + countOthers m.n i (fun k => inflight (m.hs k))
 
 /-! ### money -/
 
